@@ -54,7 +54,7 @@ def gen_program(r, idx):
     nkw = r.choice([0, 0, 1, 2]) if (varargs or r.random() < 0.5) else 0
     kwdef = [r.random() < 0.5 for _ in range(nkw)]
     varkw = r.random() < 0.35
-    kind = r.choice(['func', 'func', 'wrapped', 'method', 'unbound', 'callable', 'partial', 'partial', 'partial_method'])
+    kind = r.choice(['func', 'func', 'wrapped', 'method', 'unbound', 'callable', 'partial', 'partial', 'partial_method', 'partial_callable'])
     noself = False
     if r.random() < 0.06:        # the fully variadic signature `(*args, **kw)`: nothing is named, the key is tail + keyword items only
         npos, ndef, varargs, nkw, kwdef, varkw = 0, 0, True, 0, [], True
@@ -101,7 +101,7 @@ def build_callable(prog):
     ns['_calls'] = CALLS
     # the binding oracle: a twin with the same parameter list that returns what CPython bound (inspect.Signature.bind wrongly
     # rejects a keyword that shares the name of a positional-only parameter and belongs in **kw)
-    selfp = [] if (prog.get('noself') and kind in ('method', 'callable', 'partial_method')) else ['self']
+    selfp = [] if (prog.get('noself') and kind in ('method', 'callable', 'partial_method', 'partial_callable')) else ['self']
     own = params if kind in ('func', 'partial', 'wrapped') else selfp + params
     exec('def probe(%s): return dict(locals())\n' % ', '.join(own), ns)
     if kind in ('func', 'partial', 'wrapped'):
@@ -116,7 +116,7 @@ def build_callable(prog):
             f = functools.wraps(inner)(f)
             src += '# target = functools.wraps(inner)(target)   with   def inner(only)\n'
     else:
-        meth = '__call__' if kind == 'callable' else 'target'
+        meth = '__call__' if kind in ('callable', 'partial_callable') else 'target'
         src = 'class C(object):\n    def %s(%s):\n        _calls.append(1); return 0\n' % (meth, ', '.join(selfp + params))
         if prog.get('falsy'): src += '    def __len__(self): return 0\n'
         exec(src, ns)
@@ -129,7 +129,7 @@ def build_callable(prog):
         if kind in ('method', 'partial_method'): f = inst.target
         elif kind == 'unbound': f = ns['C'].target
         else: f = inst
-    if kind in ('partial', 'partial_method'):
+    if kind in ('partial', 'partial_method', 'partial_callable'):
         pa = tuple(prog['p_vals'][:prog['p_npos']])
         pk = {prog['p_kwname']: prog['p_vals'][2]} if prog['p_kw'] else {}
         f = functools.partial(f, *pa, **pk)
